@@ -88,6 +88,17 @@ CHECKS["C13"] = dict(
          "keys and xsl:number over stripped documents are exercised only through their own checks.",
     technique="TLA+ definition of whitespace stripping + XPath semantics on the stripped document (TLC); trace validation of observations")
 
+CHECKS["C01"] = dict(
+    category="model_checking", design_ref="DESIGN.md §5 C01",
+    text="XSLTSem.tla is an executable big-step definition of XSLT 1.0 instruction semantics (template rules with modes/priorities/params and built-in rules, "
+         "apply-templates/for-each with sort and with-param, call-template, variables incl. result tree fragments, literal result elements with AVTs, "
+         "xsl:element/attribute/comment/processing-instruction, if/choose, copy, copy-of) on top of XPathSem, TemplateRules and Sort. Seeded stylesheets nesting these "
+         "to depth 3 are run by the real processor, the result tree is recorded from the FormatterListener events before any serializer, and TLC recomputes "
+         "Transform(stylesheet, document) and compares canonical trees.",
+    note="Trusted: TLC, stylesheet renderer, result-tree recorder and its canonicalisation. Not in XSLTSem v1: namespaces in result names (C14), xsl:number (C17), keys (C15), "
+         "imports (C10), document(), format-number, output escaping control. Cases whose definition value leaves the number model or is a dynamic error are not judged.",
+    technique="TLA+ executable semantics of XSLT evaluated by TLC; trace validation of recorded result trees")
+
 NOT_YET = {
 }
 
